@@ -14,6 +14,7 @@ THEOREMS = [
     "IsoVerif.Props.C01.C01_witness_stale_dep_panic",
     "IsoVerif.Props.C01.C01_statement_false",
     "IsoVerif.Props.C01.C01_stage1_partial",
+    "IsoVerif.Props.C01.C01_stage2_single_epoch_partial",
 ]
 HARNESS = ("hx_pico", {"HX_ENGINE": "c01"})
 DRIVER = "drv_pico"
@@ -26,7 +27,8 @@ LEVEL_NOTE = ""
 PARTIAL = [
     "C01_statement (all programs, all histories) is false of today's code: F1 (absent singleton / never-written tracked counter then first write), F2 (remove, inner reader re-run alone) and the caught-panic case are open known findings with witness theorems",
     "C01_stage1_partial carries nesting depth 0 only (Flat: no body calls a memoised function) and only histories whose calls are clean (CleanCalls: the from-scratch evaluation of each call reads no absent source / singleton / tracked counter); within that class every operation is covered, including gc, retain and tracked fields",
-    "nested calls (stages 2 and 3 of DESIGN section 8) are not carried by a theorem yet: for them C01 rests on the correspondence + oracle and on the witness theorems",
+    "C01_stage2_single_epoch_partial carries ARBITRARY programs (nested calls, diamonds, ref functions) but only histories in which every source operation precedes every call (plus CleanCalls): execution = evaluation, in-epoch reuse, re-creation after gc",
+    "nested calls ACROSS source changes (verification of derived dependencies, backdating, time_updated) are not carried by a theorem: there C01 rests on the correspondence + oracle; CleanCalls alone is not sufficient for that class (C01_witness_stale_dep_panic: F22 makes a call panic), the hypothesis would have to cover every stored node",
     "intern_ref appears only as ref functions (kind 3) whose value is the callee's value; intern_value and MemoRef parameters are not in the model",
 ]
 ASSUMPTIONS = [
